@@ -8,7 +8,10 @@ under a counting limit.  Every call is one event validated by spec/BotTrace.tla:
 in layer R, reported board = Apply of the specification, threefold flag = 'the new position now has
 exactly three occurrences among the positions produced since the board was set' (identity:
 placement, side, rights, en-passant file), proposed move legal and board unchanged by evaluate.
-A long reversible manoeuvre (1100 plies of knight moves) is run in a separate process."""
+A long reversible manoeuvre (1100 plies of knight moves, with searches on top of the long history)
+is run in a separate process.  Whole games between two plugin instances, driven like the tournament
+loop of chess-cli (bot_fight.rs), are validated by the same module: both instances stay in step and
+the loop's verdict (mate and winner, draw, threefold, running) is the verdict of layer R."""
 import json
 import os
 import shutil
@@ -31,25 +34,53 @@ def run(ctx):
     ctx.cov["transitions"] += rm["generated"]
     ctx.cov["steps"].append({"step": "design model (table = history count, illegal = stutter)", "distinct": rm["distinct"]})
     os.remove(rm["out_path"])
+    # the same design for histories of any length: the saturating table is the capped true count and the
+    # flag is exact (TLAPS, spec/BotProofs.tla; needs CounterMax > 3, which u8::MAX satisfies)
+    import re, subprocess
+    from vlib import SPEC
+    d = os.path.join(ctx.work, "tlaps")
+    os.makedirs(d)
+    shutil.copy(os.path.join(SPEC, "BotProofs.tla"), d)
+    p = subprocess.run(["timeout", "900", "tlapm", "--threads", "4", "BotProofs.tla"], cwd=d, stdout=subprocess.PIPE, stderr=subprocess.STDOUT, text=True)
+    m = re.search(r"All (\d+) obligations? proved", p.stdout)
+    failed = re.search(r"(\d+)/(\d+) obligations? failed", p.stdout)
+    if m:
+        ctx.cov["steps"].append({"step": "tlapm BotProofs.tla", "obligations": int(m.group(1)), "discharged": int(m.group(1))})
+    elif failed:
+        ctx.violation("bot-design-proof", {"failed": failed.group(0), "tail": p.stdout[-600:]}, {"kind": "tlapm", "module": "BotProofs"})
+    else:
+        raise ToolError("tlapm did not report a result: %s" % p.stdout[-1200:])
     keys = ctx.keys()
     jobs = [("shuffle", "", i, 2500 if quick else 40000) for i in range(10 if quick else 42)]
     jobs.append(("long", "std", 0, 1200))
-    pass
+    # whole games between two plugin instances driven like the tournament loop of chess-cli (the engine
+    # proposes under a counting limit, the move goes to both instances, the loop's verdict is recorded)
+    jobs += [("match", "std,perft,tiny,promo,clock", i, 3000 if quick else 20000) for i in range(4 if quick else 12)]
 
     def one(job):
         mode, tags, i, ev = job
         name = "bot-%s-%d" % (mode, i)
         tr = os.path.join(ctx.work, name + ".ndjson")
-        h = ctx.harness(["record-bot", "--mode", mode, "--tags", tags, "--seed", ctx.seed, "--shard", i, "--events", ev, "--out", tr], timeout=3000)
+        h = ctx.harness(["record-bot", "--mode", mode, "--tags", tags, "--seed", ctx.seed, "--shard", i, "--events", ev, "--kmax", 20000, "--out", tr], timeout=3000)
         r = ctx.tlc("BotTrace", "BotTrace.cfg", env={"VERIF_TRACE": tr, "VERIF_KEYS": keys}, workers=1, deque=True, timeout=3000, name=name)
         return job, name, tr, h, r
 
     calls = flags = total = 0
     for job, name, tr, h, r in ctx.pmap(one, jobs):
         for pn in h["panics"]:
-            # a crash of the plugin is a C07 finding; C15 reports it only as context
-            ctx.other("C07")
-            ctx.note("plugin run %s ended abnormally: %s" % (name, json.dumps(pn)[:300]))
+            # a crash of the plugin is a C07 finding; it is also a C15 violation when the call that did
+            # not return is make_move or set_board (the move was neither applied nor reported invalid)
+            pend = ""
+            if os.path.exists(tr + ".pending"):
+                pend = open(tr + ".pending").read()
+            if " make_move " in pend or " set_board " in pend:
+                kept = os.path.join(REPLAYS, "C15-%s-%d-trace-%s.ndjson" % (ctx.tier, ctx.seed, name))
+                shutil.copy(tr, kept)
+                ctx.violation("call-did-not-return (the plugin aborted the process)", {"call": pend[:300], "panic": pn},
+                              {"kind": "harness", "args": [str(a) for a in h["args"]], "trace": kept, "pending": pend[:300]})
+            else:
+                ctx.other("C07")
+                ctx.note("plugin run %s ended abnormally in %s: %s" % (name, pend[:120], json.dumps(pn)[:300]))
         done = list(ctx.tlc_lines(r["out_path"], "DONE"))
         if not done or done[0]["lines"] != done[0]["consumed"]:
             raise ToolError("bot trace validation failed (%s): %s" % (name, r["errors"][:3]))
@@ -68,6 +99,9 @@ def run(ctx):
                 if seen[b["check"]] > 3:
                     continue
                 ev = json.loads(lines[b["line"] - 1])
+                if b["prop"] != "C15":
+                    ctx.other(b["prop"])
+                    continue
                 ctx.violation(b["check"], {"trace_line": b["line"], "event": {k: v for k, v in ev.items() if k != "board"}},
                               {"kind": "trace", "record_args": [str(a) for a in h["args"]], "trace": kept, "line": b["line"], "module": "BotTrace"})
         ctx.cov["states"] += r["distinct"]
@@ -76,6 +110,8 @@ def run(ctx):
             evs = [json.loads(x) for x in open(tr).read().split("\n")[1:5] if x]
             ctx.sample({"direction": "impl->spec", "scenario": name, "events": [{k: v for k, v in e.items() if k != "board"} for e in evs]})
         os.remove(tr)
+        if os.path.exists(tr + ".pending"):
+            os.remove(tr + ".pending")
         os.remove(r["out_path"])
     ctx.cov["evaluations"] += calls
     ctx.cov["distinct_nontrivial"] += flags
